@@ -74,6 +74,25 @@ pub fn replay(check: &str, i: &Value) -> Option<CheckResult> {
         let ok = matches!(&got, Ok(r) if r.len() == 2 && (r[0].is_err() || (r[0].as_ref().ok() == Some(&wa) && (r[1].is_err() || r[1].as_ref().ok() == Some(&wb)))));
         return Some(if ok { Ok(()) } else { Err(Violation::new("transport-interrupt", format!("C15 enum={} kind=packet-invented-after-interrupted-read", en.name), format!("reads gave {:?}", got), i.clone())) });
     }
+    if check == "transport-large" {
+        let ens = enums();
+        let en = ens.iter().find(|e| Some(e.name) == i.get("enum").and_then(|x| x.as_str()))?;
+        let stream = unhex(i.get("stream")?.as_str()?);
+        let got = guard(|| (en.read)(stream.clone(), 4, None));
+        // replay: the packets are re-derived by parsing each framed packet on its own
+        let mut want = vec![];
+        let mut off = 0usize;
+        while off + 3 <= stream.len() {
+            let (h, l) = if stream[off + 2] == 0xff { (5, u16::from_le_bytes([stream[off + 3], stream[off + 4]]) as usize) } else { (3, stream[off + 2] as usize) };
+            want.push(guard(|| (en.parse)(&stream[off..off + h + l])).ok().and_then(|r| r.ok()));
+            off += h + l;
+        }
+        let ok = match &got {
+            Ok(r) => r.len() == 4 && want.len() == 3 && (0..3).all(|k| r[k].as_ref().ok() == want[k].as_ref()) && r[3].is_err(),
+            Err(_) => false,
+        };
+        return Some(if ok { Ok(()) } else { Err(Violation::new("transport-large", format!("C15 enum={} kind=packets-behind-a-large-packet-misread", en.name), format!("reads gave {:?}", got), i.clone())) });
+    }
     if check == "transport" {
         let ens = enums();
         let en = ens.iter().find(|e| Some(e.name) == i.get("enum").and_then(|x| x.as_str()))?;
@@ -268,6 +287,49 @@ pub fn run(tier: Tier) -> i32 {
                 }
             }
         }
+        // a large owned packet (data block of 1 .. 5 KiB, extended length form) with two more owned packets already readable
+        // behind it: each read returns exactly its packet
+        let mut large: Vec<(String, Vec<u8>)> = vec![];
+        for (c, k, _, ty) in owned.iter() {
+            let l = &t[*ty];
+            for (j, target) in [1100usize, 1500, 2049, 5000].iter().enumerate() {
+                if let Some(base) = ctx.sample_values(eseed ^ fnv_str(ty) ^ (j as u64 + 77), 1, &strategy_for(&t, ty, GenCfg::small())).into_iter().next() {
+                    if let Some(p) = pump(&t, l, &base, *target) {
+                        if is_canonical(&t, l, &p) {
+                            if let Ok(body) = enc_struct_body(&t, l, &p) {
+                                if body.len() > 1024 && body.len() < 65536 {
+                                    let b = apdu_of(*c, *k, &body);
+                                    if let Ok(Ok(d)) = guard(|| (en.parse)(&b)) {
+                                        large.push((d, b));
+                                    }
+                                }
+                            }
+                        }
+                    }
+                }
+            }
+        }
+        for (a, (want_l, img_l)) in large.iter().enumerate() {
+            if images.is_empty() {
+                break;
+            }
+            let (want_b, img_b) = &images[a % images.len()];
+            let (want_c, img_c) = &images[(a + 1) % images.len()];
+            let mut stream = img_l.clone();
+            stream.extend(img_b);
+            stream.extend(img_c);
+            let got = guard(|| (en.read)(stream.clone(), 4, None));
+            st.case(true, fnv(&stream) ^ fnv_str(en.name));
+            st.class("transport:large-packet-then-two-more-in-one-buffer");
+            let ok = match &got {
+                Ok(r) => r.len() == 4 && r[0].as_ref().ok() == Some(want_l) && r[1].as_ref().ok() == Some(want_b) && r[2].as_ref().ok() == Some(want_c) && r[3].is_err(),
+                Err(_) => false,
+            };
+            if !ok {
+                let input = json!({"enum": en.name, "stream": hex(&stream)});
+                ctx.record(Err(Violation::new("transport-large", format!("C15 enum={} kind=packets-behind-a-large-packet-misread", en.name), format!("stream: a packet with a data block of {} bytes, then {} and {}\n  four reads gave {:?}\n  expected those three packets, then end of stream", img_l.len() - 5, clip(&hex(img_b), 60), clip(&hex(img_c), 60), got.as_ref().map(|r| r.iter().map(|x| x.as_ref().map(|s| clip(s, 60)).map_err(|e| clip(e, 60))).collect::<Vec<_>>())), input)), st);
+            }
+        }
         for (a, (_, img_a)) in images.iter().enumerate() {
             for (want, real) in images.iter().skip(a + 1).chain(images.iter().take(a)).take(3) {
                 for pad in [255usize, 300, 1000] {
@@ -295,7 +357,7 @@ pub fn run(tier: Tier) -> i32 {
     stats.exhaustive_parts = vec!["17 reply parsers x all 65 536 (class, instr) pairs, each with every prepared body".into()];
     ctx.finish(
         stats,
-        "enumeration: every reply enum x every (class, instr) pair x bodies {empty, canonical bodies of each variant's packet type, random}, owned pairs also with further bytes behind the packet in the same buffer (a following packet, field-like bytes, random); plus inputs shorter than two bytes; plus, through PacketTransport::read_packet::<enum>, a foreign extended-length packet whose data block begins with the image of an owned packet, followed by an owned packet (error, that packet, end of stream), and two owned packets with one read interrupted at every offset of the first (an error, or exactly those packets); plus, through the real sequences, every form of the terminal's acknowledgement (empty / with a reply-like data block / extended length) in front of each reply of the reply set (trace oracle of C05). Oracle from an independent enum -> control field table: foreign pair => Err; owned pair => identical to the variant's packet type decoding the same bytes. non-trivial = pair owned by the enum or sharing class or instr with an owned pair; distinct by (enum, pair, body) by construction",
+        "enumeration: every reply enum x every (class, instr) pair x bodies {empty, canonical bodies of each variant's packet type, random}, owned pairs also with further bytes behind the packet in the same buffer (a following packet, field-like bytes, random); plus inputs shorter than two bytes; plus, through PacketTransport::read_packet::<enum>, a foreign extended-length packet whose data block begins with the image of an owned packet, followed by an owned packet (error, that packet, end of stream), a large owned packet (data block 1 .. 5 KiB) with two more packets readable behind it in the same buffer, and two owned packets with one read interrupted at every offset of the first (an error, or exactly those packets); plus, through the real sequences, every form of the terminal's acknowledgement (empty / with a reply-like data block / extended length) in front of each reply of the reply set (trace oracle of C05). Oracle from an independent enum -> control field table: foreign pair => Err; owned pair => identical to the variant's packet type decoding the same bytes. non-trivial = pair owned by the enum or sharing class or instr with an owned pair; distinct by (enum, pair, body) by construction",
         &["registry::enum_table() (DESIGN.md Appendix B) is the independent statement of each command's reply set"],
         true,
     )
